@@ -268,6 +268,10 @@ fn still_fails(prop: &dyn Property, kf: &Known, case: &Case, rule: &str) -> Opti
 /// rule-preserving delta debugging on the texts / bytes of a case
 pub fn shrink(prop: &dyn Property, kf: &Known, case: &Case, rule: &str) -> Case {
     let mut best = case.clone();
+    if case.kind == "xtool" {
+        // (source, digest observed by the other toolchain's harness): the pair is the evidence
+        return best;
+    }
     let mut budget = 1500usize;
     let big = best.texts.iter().map(|t| t.len()).sum::<usize>() > 200_000;
     if big {
